@@ -7,6 +7,9 @@ S=/verif/seeded/$1
 dir=$(python3 -c "import json;print(json.load(open('$S/meta.json'))['demonstration']['place_in'])")
 demo=$(python3 -c "import json;print(json.load(open('$S/meta.json'))['demonstration']['file'])")
 extra=""; case "$1" in C18-*) extra="-race";; esac
+# optional environment for the demonstration (e.g. GOARCH=386)
+denv=$(python3 -c "import json;print(json.load(open('$S/meta.json'))['demonstration'].get('env',''))")
+[ -n "$denv" ] && export $denv
 export GOFLAGS=-mod=mod GOPROXY=off GOSUMDB=off GOTOOLCHAIN=local GOCACHE=/verif/.gocache
 W=/scratch/sw-$$
 mkdir -p /scratch
@@ -21,6 +24,7 @@ go test $extra -vet=off -count=1 ./$dir/ > /dev/null 2>&1; a=$?
 git apply $S/patch.diff || { echo "$1 PATCH DOES NOT APPLY"; exit 2; }
 go test $extra -vet=off -count=1 ./$dir/ > /dev/null 2>&1; b=$?
 rm -f $W/$dir/$demo
+[ -n "$denv" ] && unset ${denv%%=*}
 /verif/baseline.sh $W > /tmp/sv-$$.txt 2>&1; c=$?
 echo "$1: demo without change rc=$a (want 0), with change rc=$b (want !=0), repository suite rc=$c (want 0): $(tail -1 /tmp/sv-$$.txt)"
 rm -f /tmp/sv-$$.txt
